@@ -354,6 +354,11 @@ pub fn check_attribution(c: &Case, p: usize, origin: &Origin, reason: &R, data: 
 		},
 		None => {},
 	}
+	// "attributed by the sender to that hop": a failure that an intermediate hop produced must leave the
+	// sender with something that points at that hop - a network update or at least a channel to avoid
+	if !is_final && d.network_update.is_none() && d.short_channel_id.is_none() {
+		out.push(mm("failure-attribution", format!("failure {:?} ({:#06x}) from intermediate hop {} of {} is attributed to nobody (no network update, no channel)", reason, want_code, p, n)));
+	}
 	if let Some(s) = d.short_channel_id {
 		if s != in_chan && Some(s) != out_chan {
 			let who = hops.iter().position(|h| h.short_channel_id == s);
